@@ -35,6 +35,7 @@ type NodeOpts struct {
 	ClientRecovery bool // recover the way client/main.go does (do_the_blocks) instead of ParseTillBlock
 	LibraryTail    bool // the genesis selects the rule set NewChainExt configures by itself: let NewChainExt re-apply the blocks (DoNotRescan=false)
 	NetPath        bool // PreCheckBlock/AcceptHeader ... PostCheckBlock/CommitBlock instead of CheckBlock/AcceptBlock
+	CompressOpt    bool // NewChanOpts.CompressUTXO (the client's UTXOSave.CompressRecords): matters when no snapshot is loaded
 	RealAlloc      bool // UTXO records live in lib/others/memory (as in the client unless UseGoHeap), not on the Go heap
 	Callbacks      utxo.CallbackFunctions
 	BlockMined     func(*btc.Block)
@@ -105,7 +106,7 @@ func Boot(dir string, o NodeOpts) *Node {
 	}
 	libTail := o.LibraryTail && !o.ClientRecovery
 	ch := chain.NewChainExt(dir, btc.NewUint256(o.Genesis[:]), false,
-		&chain.NewChanOpts{DoNotRescan: !libTail, UTXOCallbacks: o.Callbacks, BlockMinedCB: o.BlockMined, BlockUndoneCB: o.BlockUndone},
+		&chain.NewChanOpts{DoNotRescan: !libTail, UTXOCallbacks: o.Callbacks, BlockMinedCB: o.BlockMined, BlockUndoneCB: o.BlockUndone, CompressUTXO: o.CompressOpt},
 		&chain.BlockDBOpts{MaxCachedBlocks: o.CacheBlocks, MaxDataFileSize: o.MaxFileSize, CompressOnDisk: o.CompressBlocks})
 	n := &Node{Ch: ch, Dir: dir, Opts: o, Alloc: alloc}
 	applyConsensus(ch, o.P)
